@@ -130,6 +130,23 @@ ChunkedWriteUpd(s, e) ==
   [s EXCEPT !.ended = @ \/ (e.res = "ok" /\ e.term > 0), !.ready = e.ready]
 
 WriteFails(s, e) == IF s.mode = "sized" THEN SizedWriteFails(s, e) ELSE ChunkedWriteFails(s, e)
+
+(***************************************************************************)
+(* The transition out of the send-body state (Flow::proceed / Call::into_receive)  *)
+(* and the read-only queries, judged under the property of the body's framing.      *)
+(*   adv [ready, advanced]      mx [.., ready]                                       *)
+(***************************************************************************)
+ModeProp(s) == IF s.mode = "sized" THEN "C04" ELSE "C03"
+AdvanceFails(s, e) ==
+       Clause(ModeProp(s), "the transition to the receive state succeeded although the body is not reported finished",
+              e.advanced => e.ready)
+  \cup Clause(ModeProp(s), "the body is reported finished but the transition to the receive state is refused",
+              e.ready => e.advanced)
+  \cup Clause(ModeProp(s), "a read-only readiness query changed its answer without a write in between", e.ready = s.ready)
+QueryFails(s, e) ==
+  IF "ready" \in DOMAIN e
+  THEN Clause(ModeProp(s), "a read-only query (calculate_max_input) changed the finished flag", e.ready = s.ready)
+  ELSE {}
 WriteUpd(s, e)   == IF s.mode = "sized" THEN SizedWriteUpd(s, e) ELSE ChunkedWriteUpd(s, e)
 
 (***************************************************************************)
